@@ -837,6 +837,10 @@ impl<P: RuntimeProvider + Send + Sync> SqliteZoneHandler<P> {
                             );
                             let origin = self.origin();
 
+                            // In a zone this server signs itself the DNSKEY RRset and the NSEC/NSEC3 chain are
+                            //  maintained by the server (add_zone_signing_key / secure_zone), not by updates.
+                            let dnssec_enabled = self.is_dnssec_enabled;
+
                             let mut records = self.in_memory.records_mut().await;
                             let old_size = records.len();
                             records.retain(|k, _| {
@@ -844,6 +848,14 @@ impl<P: RuntimeProvider + Send + Sync> SqliteZoneHandler<P> {
                                     || ((k.record_type == RecordType::SOA
                                         || k.record_type == RecordType::NS)
                                         && k.name == *origin)
+                                    || (dnssec_enabled
+                                        && matches!(
+                                            k.record_type,
+                                            RecordType::DNSKEY
+                                                | RecordType::NSEC
+                                                | RecordType::NSEC3
+                                                | RecordType::NSEC3PARAM
+                                        ))
                             });
                             let new_size = records.len();
                             drop(records);
